@@ -13,6 +13,10 @@ Correspondence streams:
                      objects, other connections, h2c) and the same semantic request over 1.0, 1.1, h2
   e2e cold start     each probe as the first request a fresh server ever sees vs the warm reference
                      (server-wide state: deflate cache on disk, stat cache) + content-coding oracle
+  e2e wide           own server: deep pipelines (>= 116 KiB of pipelined requests behind a slow CGI, aligned
+                     and unaligned with the read buffers) vs each request alone; clients from many
+                     127.x.y.z source addresses (REMOTE_ADDR oracle); concurrent h2 downloads under a
+                     closed connection window
   e2e model          the Lean connection automaton predicts status / body / connection fate / selected
                      headers for sequences on the modelled part of the site (incl. POST to a CGI sink,
                      413, HTTP/1.0 downgrade block, blank-line messages, rejected HEADs)
@@ -44,8 +48,10 @@ MANIFEST = dict(
          "head; Lean connection automaton vs real server incl. blank lines, 413, 1.0 downgrade, POST to "
          "CGI); history independence for everything outside the model — CGI environment, auth, "
          "ranges, rewrite/redirect, deflate and its disk cache, dir listing, SSI, error handlers, "
-         "extforward, other connections, concurrent streams, h2c upgrade, cold vs warm server — by the "
-         "end-to-end metamorphic stream against the real server over HTTP/1.0/1.1/h2",
+         "extforward, other connections (also from other client addresses), concurrent streams (also "
+         "under a closed connection window), deep pipelines (> 64 KiB unprocessed requests), h2c upgrade, "
+         "cold vs warm server — by the end-to-end metamorphic streams against the real server over "
+         "HTTP/1.0/1.1/h2",
     note="trusted: Lean kernel; the hand-written models (validated only by the differential streams); the "
          "textual recogniser of reset hooks; e2e.py's response parser. Not modelled: the condition cache "
          "evaluation (config_patch_config is stubbed in the harness; stale-cache safety rests on the "
@@ -1671,12 +1677,17 @@ def cold_job(bd, items):
     return out
 
 
-def deep_pipeline(srv, rng):
+def deep_pipeline(srv, rng, size=None):
     """>= 110 KiB of pipelined requests written while the server is busy with a slow first request (so that
     they wait, unprocessed, in the server's read buffer); every answer is compared with the answer to the
-    same bytes sent alone on a fresh connection.  Returns (number compared, list of problems)."""
+    same bytes sent alone on a fresh connection.  `size`: every request (the slow one too) is padded to
+    exactly that many octets, so that request boundaries fall on the boundaries of the server's read
+    buffers (power of two); None: mixed lengths, requests straddle the buffers.
+    Returns (number compared, list of problems)."""
+    nreq = PIPE_N if size is None else max(PIPE_N * 1024 // size, 40)
     reqs = []
-    for i in range(PIPE_N):
+    for j in range(nreq):
+        i = j % PIPE_N
         r = rng.random()
         if r < 0.72:
             q = Req("GET", "/deep/%03d.txt" % i)
@@ -1688,8 +1699,12 @@ def deep_pipeline(srv, rng):
             q = Req("GET", "/files/b.txt?n=%d" % i, [("X-Variant", "b")])
         else:
             q = Req("GET", "/deep/%03d.txt" % i, [("If-None-Match", "\"none-%d\"" % i)])
-        q.headers.append(("X-Pad", "a" * max(1, rng.choice([1024, 1024, 1024, 960, 1100]) - len(q.h1(1)) - 9)))
+        want = size or rng.choice([1024, 1024, 1024, 960, 1100])
+        q.headers.append(("X-Pad", "a" * max(1, want - len(q.h1(1)) - 9)))
         reqs.append(q)
+    slow = Req("GET", "/cgi/slow.pl")
+    if size:
+        slow.headers.append(("X-Pad", "a" * max(1, size - len(slow.h1(1)) - 9)))
     refs = []
     for q in reqs:
         c = H1Client(srv.port)
@@ -1700,7 +1715,6 @@ def deep_pipeline(srv, rng):
             refs.append(obs_key(h1_obs(rs[0], srv)) if rs else None)
         finally:
             c.close()
-    slow = Req("GET", "/cgi/slow.pl")
     c = H1Client(srv.port)
     problems = []
     try:
@@ -1712,6 +1726,11 @@ def deep_pipeline(srv, rng):
         rs, err = c.read(1 + len(reqs), timeout=25.0)
     finally:
         c.close()
+    if not rs and err and err != "timeout (None)":
+        # the response stream is not a sequence of HTTP responses matching the requests (e.g. a body where a
+        # HEAD was asked): answers do not belong to their requests
+        return len(reqs), [{"index": -1, "offset": 0, "request": "(whole pipeline)", "alone": "(parseable)",
+                            "pipelined": "response stream cannot be parsed: " + err[:200], "status": None}]
     if len(rs) < 1 or rs[0]["status"] != 200 or rs[0]["body"] != b"slow\n":
         return 0, []                       # the slow request itself failed: inconclusive, not a verdict
     n = 0
@@ -1776,16 +1795,61 @@ def source_addresses(srv, rng):
     return n, problems
 
 
+def windowed_downloads(srv, rng):
+    """concurrent HTTP/2 downloads while the client keeps the connection window at its initial 65535 octets
+    (stream windows are large): the server may not send more than the connection window allows, and once
+    the window is opened every stream must deliver the same body as the request alone.
+    Returns (number of checks, problems)."""
+    big = SITE_FILES["files/big.bin"]
+    nstreams = rng.choice([2, 2, 3])
+    c = H2Client(srv.port, preface=False)
+    problems = []
+    try:
+        c.send(e2e.H2_PREFACE + e2e.h2_settings(((4, 1 << 24),)))     # stream windows 16 MiB, connection window untouched
+        q = Req("GET", "/files/big.bin")
+        sids = [c.open(q) for _ in range(nstreams)]
+
+        def data_len(fs):
+            return sum(len(pl) for t, fl, sid, pl in fs if t == 0)
+        end = time.time() + 6.0
+        while time.time() < end and not c.closed:          # until the server has been silent for 0.4 s
+            n0 = len(c.frames)
+            c.pump(0.4, until=lambda fs: len(fs) > n0)
+            if len(c.frames) == n0 and data_len(c.frames) > 0:
+                break
+        got = data_len(c.frames)
+        if got > 65535:
+            problems.append({"key": "connection-window-overrun",
+                             "problem": "%d octets of DATA on %d concurrent streams although the connection flow-control "
+                                        "window is 65535 and was never enlarged" % (got, nstreams)})
+        c.send(e2e.h2_window_update(0, 1 << 30))
+        st = c.wait(sids, timeout=15.0)
+        for sid in sids:
+            d = st.get(sid) if "error" not in st else None
+            if d is None:
+                if got > 0:            # (otherwise the server never got going: inconclusive)
+                    problems.append({"key": "unanswered", "problem": "stream %d got no complete response after the window was opened" % sid})
+            elif d["body"] != big:
+                problems.append({"key": "body", "problem": "stream %d: body of %d octets differs from the file (%d octets) "
+                                                            "the request alone gets" % (sid, len(d["body"]), len(big))})
+    finally:
+        c.close()
+    return nstreams + 1, problems
+
+
 def wide_job(bd, seed):
     """own server: deep pipeline, client source addresses"""
     import random, shutil
     rng = random.Random(seed)
-    res = {"pipe": None, "addr": None, "san": None, "error": None, "seed": seed}
+    res = {"pipe": None, "addr": None, "win": None, "san": None, "error": None, "seed": seed}
     srv = new_server(bd)
     try:
         with srv:
-            res["pipe"] = deep_pipeline(srv, rng)
+            n1, p1 = deep_pipeline(srv, rng, size=rng.choice([1024, 1024, 512, 2048]))
+            n2, p2 = deep_pipeline(srv, rng)
+            res["pipe"] = (n1 + n2, p1 + p2)
             res["addr"] = source_addresses(srv, rng)
+            res["win"] = windowed_downloads(srv, rng)
         res["san"] = srv.sanitizer_report()
     except Exception as ex:
         import traceback
@@ -1870,7 +1934,7 @@ def gen_sequences(ctx):
 
 def evaluate_wide(ctx, wide):
     if wide["error"]:
-        wide = dict(wide, pipe=None, addr=None)       # (server start lost to load: inconclusive)
+        wide = dict(wide, pipe=None, addr=None, win=None)       # (server start lost to load: inconclusive)
         ctx.dist["wide:server-error"] += 1
     if wide.get("san"):
         ctx.violation("e2e:sanitizer:wide", "sanitizer / assertion report from lighttpd during the deep-pipeline / "
@@ -1887,6 +1951,16 @@ def evaluate_wide(ctx, wide):
                       {"property": ctx.pid, "kind": "e2e-wide", "stream": "deep-pipeline", "first": p, "count": len(probs),
                        "seed": wide.get("seed")})
     ctx.streams.append({"name": "e2e-deep-pipeline(real server)", "cases": n, "differing": len(probs)})
+    n, probs = wide.get("win") or (0, [])
+    ctx.evaluations += n
+    seen = set()
+    for p in probs:
+        if p["key"] not in seen:
+            seen.add(p["key"])
+            ctx.violation("e2e:h2-windowed:%s" % p["key"], "concurrent HTTP/2 downloads under a closed connection window: "
+                          + p["problem"], {"property": ctx.pid, "kind": "e2e-wide", "stream": "windowed-downloads",
+                                           "first": p, "seed": wide.get("seed")})
+    ctx.streams.append({"name": "e2e-windowed-downloads(real server)", "cases": n, "problems": len(probs)})
     if wide["addr"] is None:
         ctx.dist["wide:source-address-bind-impossible-or-skipped"] += 1
         ctx.streams.append({"name": "e2e-source-addresses(real server)", "cases": 0, "note": "not run"})
@@ -2166,7 +2240,8 @@ def replay(ctx, path):
         wide = wide_job(bd, rep.get("seed", 1))
         print("deep pipeline:", wide["pipe"] and (wide["pipe"][0], wide["pipe"][1][:2]))
         print("source addresses:", wide["addr"] and (wide["addr"][0], wide["addr"][1][:2]), wide["error"] or "")
-        if (wide["pipe"] and wide["pipe"][1]) or (wide["addr"] and wide["addr"][1]):
+        print("windowed downloads:", wide.get("win"))
+        if (wide["pipe"] and wide["pipe"][1]) or (wide["addr"] and wide["addr"][1]) or (wide.get("win") and wide["win"][1]):
             print("VIOLATION property=%s replay=(replayed)" % ctx.pid)
             return 1
         return 0
